@@ -735,6 +735,14 @@ func genTokenPlan(r *rand.Rand, tier, focus string) *vfPlan {
 	for i, s := range []string{"s1", "s2", "s3"} {
 		add(vfStep{Op: "login", Sess: s, User: users[i]})
 	}
+	if focus == "C04" {
+		// honest flows first, so that every kind of artefact exists early in the run
+		add(vfStep{Op: "oidc_authorize", Sess: "s1", A: "clientA", L: []string{"redirect:same", "nonce:yes", "method:nochallenge"}})
+		add(vfStep{Op: "oidc_token", A: "last:code", B: "clientA", L: []string{"secret:right", "verifier:absent", "redirect:same", "auth:header"}})
+		add(vfStep{Op: "oidc_authorize", Sess: "s2", A: pick(r, []string{"clientB", "clientD"}), L: []string{"redirect:same", "nonce:yes", "method:S256"}})
+		add(vfStep{Op: "clishow", Sess: pick(r, []string{"s1", "s2", "s3"})})
+		add(vfStep{Op: "mint_storage", User: pick(r, users)})
+	}
 	clients := []string{"clientA", "clientB", "clientC", "clientD"}
 	kinds := []string{"cookie", "code", "idtoken", "access", "clitoken", "storage"}
 	consumers := []string{"session", "sessionpost", "certgen", "token", "userinfo", "cliverify", "clisend", "storage", "tokenother", "clisendother", "storageother"}
@@ -805,7 +813,14 @@ func genTokenPlan(r *rand.Rand, tier, focus string) *vfPlan {
 			add(vfStep{Op: "present", A: fmt.Sprintf("%d", 0), B: pick(r, consumers)})
 			p.Steps[len(p.Steps)-1].A = "newest"
 		case x < 92:
-			add(vfStep{Op: "present", A: "last:" + pick(r, kinds), B: pick(r, consumers)})
+			k := pick(r, kinds)
+			c := pick(r, consumers)
+			if focus == "C04" && chance(r, 0.45) {
+				// the consumer this kind is meant for (so that the run also contains rightful use)
+				c = pick(r, map[string][]string{"cookie": {"session", "sessionpost", "certgen"}, "code": {"token", "tokenother"}, "idtoken": {"userinfo"}, "access": {"userinfo"},
+					"clitoken": {"cliverify", "clisend", "clisendother"}, "storage": {"storage", "storageother"}}[k])
+			}
+			add(vfStep{Op: "present", A: "last:" + k, B: c})
 		default:
 			add(vfStep{Op: "advance", D: pick(r, []string{"1s", "4m59s", "5m1s", "31m", "1h1m", "15h59m", "16h1m"})})
 		}
